@@ -40,7 +40,14 @@ Fixpoint gv_equiv_t (t : ty) (a b : gv) {struct t} : bool :=
     (fix go (fl : list (string * string * string * ty)) (l1 l2 : list gv) {struct fl} : bool :=
        match fl, l1, l2 with
        | (goname, ctag, _, ft) :: fr, x :: r1, y :: r2 =>
-         (if negb (is_upper_first goname) || tag_ignore ctag then true else gv_equiv_t ft x y) && go fr r1 r2
+         (if negb (is_upper_first goname) || tag_ignore ctag then true
+          else match ft, x with
+               (* an inline pointer that is nil holds no settings; Unpack allocates inline pointers
+                  (the fields behind them share the namespace): a pointer to the zero value *)
+               | TPtr e, GPtrNil => if tag_squash ctag then gv_equiv_t ft (GPtr (zero e)) y || gv_equiv_t ft x y
+                                    else gv_equiv_t ft x y
+               | _, _ => gv_equiv_t ft x y
+               end) && go fr r1 r2
        | [], [], [] => true
        | _, _, _ => false
        end) fs l1 l2
@@ -135,7 +142,8 @@ Definition signature6 (c : case) : N :=
   end.
 
 Definition verdict6 (c : case) : N :=
-  if skipped c then 8%N
+  (* the property is about the implementation's answer: it is evaluated where the model is silent too *)
+  if skipped c then (if prop_c06 c then 8%N else 2%N)
   else ((if model_agrees c then 0 else 1) + (if prop_c06 c then 0 else 2))%N.
 
 Fixpoint run_cases (i : N) (cs : list case) : list (N * N * N) :=
